@@ -210,6 +210,8 @@ func VerifH_C17_storage() {
 	}
 	bufSize := verifChoice("bufsize", verifParam("MAXBUF", 4)+1) // 0..4
 	var held []io.ReadCloser
+	var heldParts []io.ReadCloser
+	var heldPartsOf []int
 	for i := range fs {
 		sz := files[i].Size()
 		sl := sz == uint64(len(allL))
@@ -243,6 +245,12 @@ func VerifH_C17_storage() {
 		if r2, err := files[i].Reader(); err == nil {
 			held = append(held, r2)
 		}
+		if len(parts[i]) > 0 {
+			if r3, err := parts[i][0].Reader(); err == nil {
+				heldParts = append(heldParts, r3)
+				heldPartsOf = append(heldPartsOf, i)
+			}
+		}
 	}
 	verifAssert("C17", "disk-file-exists-until-remove", verifFileExists(filepath.Join(verifTmpDir, "seg.mp4")))
 	for i := range fs {
@@ -253,6 +261,12 @@ func VerifH_C17_storage() {
 		got, err := verifReadAllBuf(r, 2)
 		verifAssert("C17", "reader-usable-after-remove-"+names[i%len(names)], err == nil)
 		obs(i%len(names), got, allL, allE)
+		r.Close()
+	}
+	for k, r := range heldParts {
+		got, err := verifReadAllBuf(r, 2)
+		verifAssert("C17", "part-reader-usable-after-remove-"+names[heldPartsOf[k]], err == nil)
+		obs(heldPartsOf[k], got, wantL[0], wantE[0])
 		r.Close()
 	}
 	verifAssert("C17", "ram-returns-what-was-written", okL[0] || okE[0])
